@@ -27,11 +27,15 @@ def mesh_pairs_sites_and_edges(ctx, rule, consequence):
             continue
         for f in m.functions.values():
             for c in own_nodes(f.node):
-                if not (isinstance(c, ast.Call) and norm(c.func).split(".")[-1] == "Mesh" and any(k.arg == "edge_mesh" for k in c.keywords)):
+                if not (isinstance(c, ast.Call) and norm(c.func).split(".")[-1] == "Mesh" and (any(k.arg == "edge_mesh" for k in c.keywords) or len(c.args) >= 6)):
                     continue
+                if not any(k.arg == "edge_mesh" for k in c.keywords):
+                    continue            # positional construction: judged only when edge_mesh is passed by keyword
                 kw = {k.arg: k.value for k in c.keywords if k.arg}
+                if "sites" not in kw and c.args:
+                    kw["sites"] = c.args[0]
                 if "sites" not in kw:
-                    raise AnalysisError(f"{f.fq} L{c.lineno}: Mesh(...) without a `sites=` keyword")
+                    continue            # arguments assembled elsewhere (`Mesh(**table)`): not an instance this rule can read
                 n += 1
                 S, E = kw["sites"], kw["edge_mesh"]
                 try:
@@ -81,7 +85,7 @@ def check(ctx):
                       "because the vertex order of the auxiliary polygons is not normalised", 2)
     ctx.rule("R07.3", "dual edge length: circumcentre-to-midpoint for one incident triangle, circumcentre-to-circumcentre for two; "
                       "adjacency stores triangle index + 1 and the reader subtracts 1", 3)
-    ctx.rule("R07.10", "a Mesh pairs site coordinates with the EdgeMesh built from those coordinates (edge centres move with the sites)", 2)
+    ctx.rule("R07.10", "a Mesh pairs site coordinates with the EdgeMesh built from those coordinates (edge centres move with the sites)", 1)
     mesh_pairs_sites_and_edges(ctx, "R07.10", "a mesh assembled from new site coordinates and the EdgeMesh of the old ones keeps stale edge centres: "
                                               "edge vectors, lengths and centres are no longer those of the site pairs")
     f = repo.func(UTIL, "generate_voronoi_vertices")
